@@ -21,6 +21,7 @@ type SimState struct {
 
 type nodeState struct {
 	up      bool
+	booting bool
 	rs      *dv.VerifRouterState
 	nonce   uint64
 	routes  map[RouteKey]uint64
@@ -57,7 +58,7 @@ func copyBoolMap[K comparable](m map[K]bool) map[K]bool {
 func (s *Sim) Save() *SimState {
 	st := &SimState{clock: vtime.Now().Sub(vtime.Epoch), live: copyBoolMap(s.Live), alt: copyBoolMap(s.Alt)}
 	for _, n := range s.Nodes {
-		ns := nodeState{up: n.Up, rs: n.DV.VerifSave(), nonce: n.Eng.nonce, routes: make(map[RouteKey]uint64, len(n.Routes)),
+		ns := nodeState{up: n.Up, booting: n.Booting, rs: n.DV.VerifSave(), nonce: n.Eng.nonce, routes: make(map[RouteKey]uint64, len(n.Routes)),
 			cmdProb: append([]string{}, n.CmdProblems...), pubSets: make(map[uint64][]string, len(n.PubSets)), pubCur: copyBoolMap(n.PubCur), pubSeq: n.PubSeq, failIn: n.Eng.failIn, fails: n.Eng.fails}
 		for k, v := range n.Routes {
 			ns.routes[k] = v
@@ -77,11 +78,11 @@ func (s *Sim) Restore(st *SimState) {
 	vsched.Reset()
 	s.Live, s.Alt = copyBoolMap(st.live), copyBoolMap(st.alt)
 	s.Problems, s.AdvSeen = nil, nil
-	s.Held, s.HeldDesc, s.holdSite, s.holdCut = nil, "", "", false
+	s.Held, s.HeldDesc, s.holdSite, s.holdCut, s.HeldNbr = nil, "", "", false, -1
 	s.InFlight = nil
 	for i, n := range s.Nodes {
 		ns := st.nodes[i]
-		n.Up = ns.up
+		n.Up, n.Booting = ns.up, ns.booting
 		n.DV.VerifRestore(ns.rs)
 		n.Eng.outbox = nil
 		n.Eng.nonce = ns.nonce
@@ -107,6 +108,9 @@ func (s *Sim) FullDump() string {
 	var b strings.Builder
 	fmt.Fprintf(&b, "clock+%v %s alt=%v tasks=%d held=%d inflight=%d\n", vtime.Now().Sub(vtime.Epoch), s.Mode(), sortedPairs(s.Alt), vsched.Pending(), len(s.Held), len(s.InFlight))
 	for i, n := range s.Nodes {
+		if n.Booting {
+			b.WriteString("(in its boot window) ")
+		}
 		fmt.Fprintf(&b, "[r%d up=%v nonce=%d seq=%d failIn=%d fails=%d rejected=%v]\n", i, n.Up, n.Eng.nonce, n.DV.VerifAdvertSeq(), n.Eng.failIn, n.Eng.fails, n.Eng.rejected)
 		for _, v := range n.DV.VerifNeighbors().VerifDump() {
 			fmt.Fprintf(&b, " N %s seq=%d face=%d act=%v age=%d dead=%v adv={%s}\n", s.shortH(v.NameH), v.AdvertSeq, v.FaceId, v.Active, v.AgeNs, v.Dead, advertStr(s, v.Advert, false))
